@@ -480,6 +480,22 @@ Definition file_ok (f : cfile) : Prop :=
   lay (f_s3 f) /\ bal (f_state f) /\ lay (f_s4 f) /\
   f_defs f <> [] /\ defs_ok (f_defs f).
 
+(** * malformed text (Reader/Reject.v) *)
+(** a character that starts nothing: not a blank, not a comment, no operator, no bracket that opens, no quote, no
+    letter / digit / underscore, not an arrow *)
+Definition junk_head (c : rune) : bool :=
+  negb ((c =? 32) || (c =? 9) || (c =? 10) || (c =? 13) || (c =? 35) || (c =? 47) || (c =? 8592) ||
+        (c =? 63) || (c =? 42) || (c =? 43) || pstart c || is_icont c).
+
+(** the part of a file before its rules: everything up to and including  Peg { state }  is read, whatever follows *)
+Definition head_ok (f : cfile) : Prop :=
+  header_ok (f_header f) [112] /\ lay (f_s_pkg f) /\ f_s_pkg f <> [] /\ ident_ok (f_pkg f) = true /\ lay (f_s1 f) /\ f_s1 f <> [] /\
+  Forall imp_ok (f_imports f) /\ lay (f_s_type f) /\ f_s_type f <> [] /\ ident_ok (f_peg f) = true /\ lay (f_s2 f) /\ f_s2 f <> [] /\
+  lay (f_s3 f) /\ bal (f_state f) /\ lay (f_s4 f).
+Definition head_text (f : cfile) : list rune :=
+  flat_map hshow (f_header f) ++ kw_package ++ f_s_pkg f ++ f_pkg f ++ f_s1 f ++ flat_map impshow (f_imports f) ++
+  kw_type ++ f_s_type f ++ f_peg f ++ f_s2 f ++ kw_Peg ++ f_s3 f ++ 123 :: f_state f ++ 125 :: f_s4 f.
+
 (** * layout *)
 Fixpoint layb_c (incmt : bool) (s : list rune) : bool :=
   match s with
